@@ -111,6 +111,8 @@ def classify(mm, model):
     """Input-describing signature of a mismatch (never the observed wrong value)."""
     lab = mm.get("label") or ""
     sig = {"kind": mm["kind"], "action": lab.split("(")[0]}
+    if mm.get("container") == "network":
+        sig["container"] = "network"
     if mm["kind"] == "transition":
         sig["differs"] = ",".join(sorted(mm["differs"]))
     if mm["kind"] == "route":
@@ -137,7 +139,8 @@ def trace_validation(chk, model, quick, sd):
     """Code -> spec: long random histories recorded from the real code, validated by TLC against Trace_Module.tla."""
     ntr, length = (64, 25) if quick else (1500, 30)
     seeds = [sd * 100000 + i for i in range(ntr)]
-    jobs = [{"model": model, "seeds": ch, "length": length} for ch in C.chunks(seeds, C.NCPU)]
+    jobs = [{"model": dict(model, container="network" if (i + sd) % 2 else "cell"), "seeds": ch, "length": length}
+            for i, ch in enumerate(C.chunks(seeds, C.NCPU))]
     outs = C.run_workers("trace_module", jobs, timeout=3000)
     traces = [t for o in outs for t in o["traces"]]
     tf = os.path.join(C.WORK, "traces.json")
@@ -280,7 +283,9 @@ def main(which):
                     s_["out"] = [o for o in s_["out"] if o[0] != "Integrate"]
             sts = [s_ for s_ in sts if s_["out"] or s_["refused"]]
         samples += [{"history": s["path"], "calls_tried": [l for l, _ in s["out"]][:4]} for s in sts[-2:]]
-        jobs = [{"model": model, "states": ch} for ch in C.chunks(sts, C.NCPU * 3)]
+        # half of the jobs replay their histories on a cell, the other half on a network with the same rows (replay_module.VIEW_NET)
+        jobs = [{"model": dict(model, container="network" if (i + sd + gi) % 2 else "cell"), "states": ch}
+                for i, ch in enumerate(C.chunks(sts, C.NCPU * 3))]
         t_d = _t.time()
         outs = C.run_workers("replay_module", jobs, timeout=3400)
         deep_info[-1]["seconds"] = {"tlc_dump+parse": round(t_b - t_a, 1), "tlc_deep": round(t_c - t_b, 1), "prepare": round(t_d - t_c, 1),
